@@ -10,6 +10,7 @@ import Stackage.Driver.Defrag
 import Stackage.Driver.Reveal
 import Stackage.Driver.Sched
 import Stackage.Driver.Equal
+import Stackage.Driver.Closures
 
 /-! Correspondence driver: case lines on stdin, `<id> M <model>` and `<id> S <spec>` lines on stdout. -/
 
@@ -30,6 +31,7 @@ def dispatch (stream payload : String) : String × String × String :=
   else if stream == "revealtrees" then runReveal payload
   else if stream == "sched" then runSched payload
   else if stream == "eqpair" then runEq false payload else if stream == "equnit" then runEq true payload
+  else if stream == "closures" then runClosures payload
   else ("NOSTREAM", "NOSTREAM", "")
 
 partial def loop (h : IO.FS.Stream) (out : IO.FS.Stream) : IO Unit := do
